@@ -110,10 +110,10 @@ where
 {
     writeln!(writer, "#[derive(Debug, Default, YaSerialize, YaDeserialize)]")?;
     if let Some(tns) = &target_namespace {
-        let namespaces = format!("\"{}\" = \"{}\"", tns.abbreviation, tns.namespace);
+        let namespaces = format!("{:?} = {:?}", tns.abbreviation, tns.namespace);
         writeln!(
             writer,
-            "#[yaserde(prefix = \"{}\", namespaces = {{{}}}, rename = \"{}\")]",
+            "#[yaserde(prefix = {:?}, namespaces = {{{}}}, rename = {:?})]",
             tns.abbreviation, namespaces, xml_name
         )?;
     }
@@ -162,9 +162,9 @@ where
     if let Some(tns) = &target_namespace {
         // declare the namespace of the type and of every member that lives in another namespace
         // (inherited members, referenced elements): the members are written with that prefix
-        let mut namespaces = vec![format!("\"{}\" = \"{}\"", tns.abbreviation, tns.namespace)];
+        let mut namespaces = vec![format!("{:?} = {:?}", tns.abbreviation, tns.namespace)];
         for member_ns in fields.iter().filter_map(|f| f.target_namespace.as_ref()) {
-            let declaration = format!("\"{}\" = \"{}\"", member_ns.abbreviation, member_ns.namespace);
+            let declaration = format!("{:?} = {:?}", member_ns.abbreviation, member_ns.namespace);
             if !namespaces.contains(&declaration) {
                 namespaces.push(declaration);
             }
@@ -172,7 +172,7 @@ where
         let namespaces = namespaces.join(", ");
         writeln!(
             writer,
-            "#[yaserde(prefix = \"{}\", namespaces = {{{}}}, rename = \"{}\")]",
+            "#[yaserde(prefix = {:?}, namespaces = {{{}}}, rename = {:?})]",
             tns.abbreviation, namespaces, xml_name
         )?;
     }
